@@ -30,13 +30,14 @@ SKIP = {"array_repr", "array_str", "savetxt", "copyto", "ones", "zeros", "apply_
         "common_type", "result_type", "full"}   # text / IO / explicit destination / no polynomial operand to make constant
 
 
-def same(got, exp, path="result"):
-    """None if equal, else a description."""
+def same(got, exp, path="result", atol=0.0):
+    """None if equal, else a description.  atol: absolute slack for float results whose numpy implementation rounds
+    differently from an exact evaluation (LU determinant, summation order under cancellation)."""
     if isinstance(exp, (tuple, list)):
         if not isinstance(got, (tuple, list)) or len(got) != len(exp):
             return f"{path}: {type(got).__name__} of length {len(got) if hasattr(got, '__len__') else '?'}, numpy gives {type(exp).__name__} of length {len(exp)}"
         for k, (g, e) in enumerate(zip(got, exp)):
-            d = same(g, e, f"{path}[{k}]")
+            d = same(g, e, f"{path}[{k}]", atol)
             if d:
                 return d
         return None
@@ -54,7 +55,7 @@ def same(got, exp, path="result"):
     if g.shape != e.shape:
         return f"{path}: shape {g.shape}, numpy gives {e.shape}"
     if e.dtype.kind in "fc":
-        okv = numpy.allclose(g.astype(e.dtype), e, rtol=1e-12, atol=0, equal_nan=True)
+        okv = numpy.allclose(g.astype(e.dtype), e, rtol=1e-12, atol=atol, equal_nan=True)
     else:
         okv = numpy.array_equal(g, e)
     if not okv:
@@ -149,7 +150,13 @@ def run(report, tier, seed):
                 viol.append((f"{name}:raise", f"{desc} [{spelling}] raised {got_err}; numpy returns {repr(exp)[:120]}",
                              {"function": name, "call": desc}))
                 continue
-            d = same(got, exp)
+            # float rounding: numpy's own result is only accurate to a few ulps of the operand scale (det goes through an
+            # LU factorisation, sums/products cancel), so a float result may differ from it by that much
+            fl = [abs(float(v)) for a in rargs if not callable(a) for v in numpy.asarray(a).ravel().tolist()
+                  if isinstance(v, float) and v == v and abs(v) != float("inf")]
+            scale = max([1.0] + fl)
+            power = numpy.asarray(rargs[0]).shape[-1] if name == "det" and numpy.asarray(rargs[0]).ndim >= 2 else 2
+            d = same(got, exp, atol=(1e-13 * len(fl) * scale ** power) if fl else 0.0)
             vals = numpy.asarray(rargs[0] if not callable(rargs[0]) else rargs[-1]).ravel().tolist() if rargs else []
             if len(set(map(str, vals))) < len(vals) or any(isinstance(v, (int, float)) and v < 0 for v in vals):
                 nontrivial.add((name, desc))
